@@ -79,7 +79,15 @@ func runSolverCtx(ctx context.Context, sd solverDef, query string, file string, 
 	cmd.Run()
 	secs := time.Since(t0).Seconds()
 	s := out.String()
-	first := strings.TrimSpace(strings.SplitN(s, "\n", 2)[0])
+	first := ""
+	for _, ln := range strings.Split(s, "\n") {
+		ln = strings.TrimSpace(ln)
+		if ln == "" || strings.HasPrefix(ln, "WARNING") || strings.HasPrefix(ln, "(warning") {
+			continue
+		}
+		first = ln
+		break
+	}
 	switch first {
 	case "unsat", "sat", "unknown":
 		return first, s, secs
@@ -119,6 +127,13 @@ var portfolio = []solverDef{
 	{"z3/pruned", func(f string, to time.Duration) []string {
 		return []string{"z3", fmt.Sprintf("-T:%d", int(to.Seconds())+1), f}
 	}, false, true},
+	// a low eager-instantiation threshold cuts matching chains (prefix facts over one heap re-trigger themselves)
+	{"z3/qi4/pruned", func(f string, to time.Duration) []string {
+		return []string{"z3", fmt.Sprintf("-T:%d", int(to.Seconds())+1), "smt.qi.eager_threshold=4", f}
+	}, false, true},
+	{"z3-new/qi4", func(f string, to time.Duration) []string {
+		return []string{"z3-new", fmt.Sprintf("-T:%d", int(to.Seconds())+1), "smt.qi.eager_threshold=4", f}
+	}, false, false},
 }
 
 func dischargeOne(o *Obligation, opt SolveOpts, wid int) {
@@ -150,7 +165,8 @@ func dischargeOne(o *Obligation, opt SolveOpts, wid int) {
 		r, out, secs := runSolverCtx(ctx, sd, q, base+"-"+strings.ReplaceAll(sd.name, "/", "_")+".smt2", to)
 		return res{sd, r, out, secs}
 	}
-	decided := func(r res) bool { return r.r == "unsat" || r.r == "sat" }
+	// a "sat" of a pruned query says nothing (hypotheses were dropped): only its "unsat" counts
+	decided := func(r res) bool { return r.r == "unsat" || (r.r == "sat" && !r.sd.pruned) }
 	var all []res
 	// stage 1: z3-new alone, short
 	t1 := 1500 * time.Millisecond
@@ -217,7 +233,7 @@ func dischargeOne(o *Obligation, opt SolveOpts, wid int) {
 		cancel()
 		if !decided(final) {
 			for _, r := range all[1:] {
-				if r.r == "unknown" {
+				if r.r == "unknown" && !r.sd.pruned {
 					final = r
 				}
 			}
